@@ -53,6 +53,9 @@ func receiverConfined(w *World, fn *types.Func) (bool, string) {
 		switch s := n.(type) {
 		case *ast.AssignStmt:
 			for _, l := range s.Lhs {
+				if id, ok := ast.Unparen(l).(*ast.Ident); ok && id.Name == "_" {
+					continue // the blank identifier: no effect
+				}
 				root := rootOf(l)
 				if root == nil {
 					okAll, why = false, "writes "+es(l)
@@ -511,6 +514,9 @@ var justifiedORD = map[string]ordJust{
 						}
 						plain := false
 						if len(v.Rhs) == len(v.Lhs) && v.Tok == token.ASSIGN {
+							if tv := c.info.Types[v.Rhs[i]]; tv.Value != nil {
+								plain = true // storing a constant is idempotent (a visited-set)
+							}
 							for _, r := range ranges {
 								if k, val := identOf(r.Key), identOf(r.Value); k != nil && val != nil && es(ix.Index) == k.Name && es(v.Rhs[i]) == val.Name {
 									plain = true
